@@ -8,3 +8,32 @@
   (! (=> (= j (+ i 1)) (= (sch_accepts n a arr i j) (sch_accepts1 n a (select arr i)))) :pattern ((sch_accepts n a arr i j)))))
 (declare-fun ctx_allows (Iface) Bool)        ; ValidateCtx.AllowIncompletePaths()
 (declare-fun type_accepts (Iface String) Bool) ; Type.Validate accepts the value
+
+; ---- structure of a compiled schema node as its accessors report it (C18); heap-independent views of
+; Children(), Choices(), Child(name), Mandatory(), Limit().Min, Presence()
+(declare-fun sch_nchildren (Iface) Int)
+(declare-fun sch_child (Iface Int) Iface)
+(declare-fun sch_nchoices (Iface) Int)
+(declare-fun sch_choice (Iface Int) Iface)
+(declare-fun sch_childbyname (Iface String) Iface)
+(declare-fun sch_mandatory (Iface) Bool)
+(declare-fun sch_min (Iface) Int)
+(declare-fun sch_presence (Iface) Bool)
+; "something mandatory is missing" relations of the property statement; their defining equations are the axioms
+; deepMandDef / choiceMissingDef / caseMissingDef in /repo/schema/zz_verif_contracts.go
+(declare-fun deep_mand (Iface) Bool)                              ; below an absent non-presence container
+(declare-fun choice_missing ((Array String Bool) Iface) Bool)     ; among the choices of an existing node, given the configured child names
+(declare-fun case_missing ((Array String Bool) Iface) Bool)       ; among the cases of a choice with a configured member
+; ---- data nodes as the validator sees them (xnode): schema(), names of children(), path()
+(declare-fun xn_schema (Iface) Iface)
+(declare-fun xn_nchildren (Iface) Int)
+(declare-fun xn_childname (Iface Int) String)   ; YangDataName of the i-th child
+(declare-fun xn_dataname (Iface) String)         ; YangDataName()
+(declare-fun xn_nameset (Iface) (Array String Bool)) ; the set of the children's names (axiom xnNamesetDef)
+; ---- unique (C18): identity of the i-th child entry, the unique statements of a list, and the value tuple
+; (getUniqueKey) of an entry for one unique statement ("" when some leaf of the set is absent)
+(declare-fun xn_ident (Iface) Int)
+(declare-fun xn_childident (Iface Int) Int)
+(declare-fun sch_nuniques (Iface) Int)
+(declare-fun sch_unique (Iface Int) Slice)
+(declare-fun unique_key (Int Slice) String)
